@@ -5,6 +5,7 @@ use std::ops::Sub;
 use std::collections::{BTreeMap, HashMap};
 use std::sync::Arc;
 //@include env/display_time.rs
+//@include env/display_model.rs
 verus! {
 //@include env/time_types.vs
 //@include env/time_ops.vs
